@@ -343,6 +343,8 @@ package updog
 
 // every intermediate group holds rows of the expression result only, and from the first refinement on at least one
 //@ pred RGsRows(rgs []resultGroup, level int, rv iset) := forall r idx(rgs) :: subset(rgs[r].result.view, rv) && (level >= 1 ==> card(rgs[r].result.view) > 0)
+// every refined group only holds rows that carry one of the values of the column it was refined by
+//@ pred RGsCarry(rgs []resultGroup, vals []groupByValue, idx *Index) := forall r idx(rgs) :: exists a idx(vals) :: subset(rgs[r].result.view, gcol(idx.values, vals[a].Idx))
 //@ func [C02,C08,C14,C04,C03] (*Query).groupBy(q, groupByFields, res0, idx) (finalResult)
 //@   requires IdxInv(idx) && res0 != nil
 //@   ensures [C02] empty_list_no_groups: len(groupByFields) == 0 ==> len(finalResult) == 0
@@ -354,11 +356,13 @@ package updog
 //@     invariant 0 <= $i && RGsOK(resultGroups, $i1) && RGsOK(newResultGroups, $i1 + 1)
 //@     invariant arr(newResultGroups) == nil || arr(newResultGroups) != arr(resultGroups)
 //@     invariant RGsRows(resultGroups, $i1, res0.view) && RGsRows(newResultGroups, $i1 + 1, res0.view)
+//@     invariant RGsCarry(newResultGroups, gbf.Values, idx)
 //@   loop 3
 //@     invariant 0 <= $i && RGsOK(resultGroups, $i1) && RGsOK(newResultGroups, $i1 + 1)
 //@     invariant arr(newResultGroups) == nil || arr(newResultGroups) != arr(resultGroups)
 //@     invariant rg.result != nil && len(rg.fields) == $i1 && subset(rg.result.view, res0.view)
 //@     invariant RGsRows(resultGroups, $i1, res0.view) && RGsRows(newResultGroups, $i1 + 1, res0.view)
+//@     invariant RGsCarry(newResultGroups, gbf.Values, idx)
 //@   loop 4
 //@     invariant 0 <= $i && RGsOK(resultGroups, len(groupByFields)) && RGsRows(resultGroups, len(groupByFields), res0.view) && len(groupByFields) >= 1
 //@     invariant arr(finalResult) == nil || (!(arr(finalResult) in old($alloc)) && allocated(arr(finalResult)))
